@@ -15,6 +15,16 @@ CLAIMED = {
          'rtol 1e-9); log is a harness-supplied table; descriptor bookkeeping (dataset/extra descriptors, measure name) is '
          'checked by the Python spec oracle, not in Coq; axioms: Reals (sig_forall_dec, sig_not_dec) + functional_extensionality_dep.',
          'DESIGN.md section 7, C01'),
+ 'C02': ('Coq proof over R: leave-one-fold-out loop = mean over ordered pairs of distinct folds for any form linear in its '
+         'first argument (crossnobis, poisson_cv), kernel expression = difference form; in-Coq correspondence of '
+         'calc_rdm(crossnobis|poisson_cv) against both the loop model and the pair-mean spec',
+         'Theorems (all numbers of folds/conditions/channels, any precision): K_aa+K_bb-K_ab-K_ba = (tr_a-tr_b)N(te_a-te_b)^T; '
+         'mean over folds of B((S-d_f)/(M-1), d_f) = 1/(M(M-1)) sum over m<>n B(d_m,d_n); diagonal removal lemma; labels sorted '
+         'distinct. Correspondence inside Coq on generated fold-balanced designs each run (loop model and spec both evaluated).',
+         'Not proved: that pooled training means of a fold-balanced design equal the mean of the other folds\' means (the '
+         'hypothesis linking rows to fold differences) - covered by the correspondence, which evaluates model and spec from rows; '
+         'np.linalg.inv modelled by validated exact Gauss-Jordan; log is a table; axioms: Reals + functional_extensionality_dep.',
+         'DESIGN.md section 7, C02'),
 }
 NA_REASON = 'check not built yet in this round (work in progress; see DESIGN.md section 7)'
 
